@@ -1,5 +1,6 @@
 fn main() {
     println!("cargo::rustc-check-cfg=cfg(build_os_windows)");
+    println!("cargo::rustc-check-cfg=cfg(lalrpop_verif)");
     if std::env::consts::OS.contains("windows") {
         println!("cargo:rustc-cfg=build_os_windows");
     }
